@@ -142,6 +142,11 @@ def handle (cfg : Cfg) (line : String) : Except String (Cfg × String) := do
         else throw "explicit"
       | _ => throw "src"
     return (cfg, "[" ++ ",".intercalate [showKey r.line, showKey r.col, showKey r.start, showKey r.stop] ++ "]")
+  | "merge" =>
+    let a ← jMeta (← j.getObjVal? "first")
+    let b ← jMeta (← j.getObjVal? "last")
+    let r := mergeSpan {} a b SqlglotModel.Generated.C13.mergeLineOfLast
+    return (cfg, "[" ++ ",".intercalate [showKey r.line, showKey r.col, showKey r.start, showKey r.stop] ++ "]")
   | _ => throw "unknown op"
 
 partial def loop (h : IO.FS.Stream) (cfg : Cfg) : IO Unit := do
